@@ -10,6 +10,14 @@ CLAIMED = {
    text="Unbounded theorems (33) about definitions that tools/c2g regenerates from /repo's C source on every run: 128-bit add/sub/shift/bit/compare/logic = arithmetic mod 2^128 for all operands and all shift counts 0 <= s < 2^31, tree bias = closest member of its interval and intervals partition, lower-bound and range search correct for every sorted array, length and initial guess (loop invariant + fuel bound), integer powers = base^exp mod word size, log2/round-up macros (256-entry table decided entry by entry). A code change alters the generated definitions, so the kernel re-checks the theorems against what the code says now; translator validation runs the extracted generated functions against the compiled C functions on ~39k grid/random cases and an independent oracle judges every C output.",
    note="Trusted: Coq kernel, the c2g translator + clang AST (validated differentially on every run), extraction, harness. Assumes parameters in the range of their C types, distinct pointer parameters do not alias, signed overflow wraps (intpow squaring is UB in C; harness built with -fwrapv). sc_bsearch_range's comparison callback is abstracted as two functions consistent with a sorted integer array.",
    technique="Rocq proof over translator-generated Gallina (T1) + differential translator validation"),
+ "C01": dict(
+   text="Theorems (unbounded in communicator size, widths, receiver families) about slices of sc_notify_recursive_nary that tools/c2g regenerates from /repo on every run: MATCHING - the ranks that send to a rank at a level are exactly the nrecv ranks the code waits for (so no hang and no leftover message), each exists, and the receive slot computed from a message's source is its index (distinct slots inside the buffer array for every arrival order); ROUTING - every record is handed to an existing rank congruent to its addressee modulo the group length; DELIVERY through all levels for any widths >= 2 whose product covers the communicator; PATTERN INVERSION - every rank ends with exactly the ranks that listed it, for every receiver family (empty lists, self-notification). Tie: T1 plus the real code - all nine algorithms and the legacy entry points - on the simulated MPI under 8 adversarial schedulers with the transposed pattern as oracle, single calls and calls back to back; the simulator detects deadlock, endless polling and leftover messages.",
+   note="Trusted: Coq kernel, c2g slices (anchored on source text), simmpi. Partial: the theorems are for the n-ary algorithm (arithmetic + level composition under the round abstraction 'a wildcard receive on a level's tag sees that level's messages'); the other eight algorithms and all schedules are covered by simulated runs + oracle, not by theorems. Recorded findings: consecutive calls without barrier of nary/nbx/superset (wildcard capture across calls).",
+   technique="Rocq proof over translator-generated Gallina (T1) + adversarial simulated-MPI runs with oracle"),
+ "C02": dict(
+   text="Theorems (unbounded): the payload slot formula - GENERATED from its four copies in sc_notify.c - reserves exactly ceil(size/sizeof(int)) int slots for every item size >= 1 (no truncation, no write beyond the record), all four copies agree, pack/unpack round trip for arbitrary padding, output offsets of variable-size payloads are the prefix sums (start 0, differences = lengths), sorting (sender, payload) records with any sorting routine keeps each payload with its sender. Tie: T1 + real code on the simulated MPI: all 9 algorithms, item sizes 1..17,24,31,40, eager threshold below/at/above the item size (both phases), variable slices, sorted 0/1, in-place/separate outputs, with an oracle that recomputes per (sender, receiver) the bytes that must arrive at the position of that sender; ASan for writes outside arrays.",
+   note="Trusted: Coq kernel, c2g slices, simmpi. Partial: the transport of payloads through the algorithms under all schedules is covered by simulated runs + oracle, not by theorems; UBSan's alignment check is off (census packs ints at unaligned offsets for sizes that are not multiples of 4). Recorded findings as for C01 (consecutive calls of nary/nbx/superset).",
+   technique="Rocq proof over translator-generated Gallina (T1) + adversarial simulated-MPI runs with byte oracle"),
  "C03": dict(
    text="Theorems (unbounded in P, inputs, operation): the global tree model of sc_reduce/sc_allreduce - built on the GENERATED sc_search_bias/maxlevel macro - equals the fold of the operands in rank order for every associative operation (no commutativity needed), at every node of the balanced tree, and never mentions the target; hence one association for all targets and ranks. Tie T3: the real code runs on the simulated MPI under 8 scheduler adversaries; every rank's trace is co-simulated against the extracted per-rank program (symbolic payloads evaluated with the concrete operation, compared bit for bit with what was sent/returned), the model's tree and an independent balanced-tree oracle are compared with the bits of every rank, and the same data is reduced to several targets / all-reduced under different schedules with bitwise comparison.",
    note="Trusted: Coq kernel, c2g (bias, log2 macro, constants), extraction, simmpi and its trace, Python IEEE arithmetic for float/double evaluation. Partial: the step from the per-rank programs to the global tree model under all schedules is validated by co-simulation, not proved (receives name their source, so matching is deterministic); long double not exercised; IEEE '+' commutativity is used implicitly only in that the model's orientation is fixed (rank order), so it is not needed any more after the repair of sc_reduce.",
